@@ -2,6 +2,7 @@ package main
 
 import (
 	"fmt"
+	"go/token"
 	"go/types"
 	"regexp"
 	"sort"
@@ -21,7 +22,7 @@ func init() {
 				"C16.topo (the topological listing has no gaps: InsertEvent consumes a topological index only after Store.SetEvent stored the event under it; dbSetEvents writes the key of exactly that index; Bootstrap reads consecutive keys), " +
 				"C16.fields (every field of a persisted type is serialised by its codec — exported, untagged — or is a listed cache that is recomputed; on the pinned tree RoundInfo.decided / queued are neither: known finding F-C16-2), C16.codec (dbSetX marshals with T.Marshal[DB] and dbGetX unmarshals with the matching T.Unmarshal[DB] of the same type), C16.sibling (thorough: the mobile store equals badger_store.go modulo the import path). " +
 				"NOT decided: behaviour after eviction and reopen as a value-level map model; durability; the five dropped store errors reported by errcheck in hashgraph (read one by one: none loses persisted content on this property's paths)."},
-		Rules:    []ruleFunc{c16readthrough, c16writethrough, c16keys, c16codec, func(p *Prog, r *Report) { topoRule(p, r, "C16.topo") }, c16fields, c16lru},
+		Rules:    []ruleFunc{c16readthrough, c16writethrough, c16keys, c16codec, func(p *Prog, r *Report) { topoRule(p, r, "C16.topo") }, c16fields, c16lru, func(p *Prog, r *Report) { keyArgRule(p, r, "C16.keyarg") }},
 		Thorough: []ruleFunc{siblingRule("C16.sibling")},
 	})
 }
@@ -607,5 +608,79 @@ func c16lru(p *Prog, r *Report) {
 	}
 	if n == 0 {
 		r.Fail(rule, "LRU.Add:existing-key-gets-new-value", p.pos(fn.Pos()), fnName(fn), "no 'key already present' path found in LRU.Add")
+	}
+}
+
+// keyArgExempt: functions in which an integer key component is legitimately computed (with the reason).
+var keyArgExempt = map[string]string{
+	"dbParticipantEvents": "range listing 'events with index > skip': the scan starts at skip+1 and advances by one",
+	"dbTopologicalEvents": "range listing: the scan advances by one from the requested start",
+}
+
+// C16.keyarg: a record is read under the key it was written under only if the integer component
+// of the key is the index itself: in every point getter / setter of the persistent store the
+// integer handed to a *Key function is a parameter, a field or a getter result used VERBATIM —
+// never an arithmetic expression (an off-by-one silently returns the neighbouring record).
+func keyArgRule(p *Prog, r *Report, rule string) {
+	r.Rule(rule, 10, "the integer component of every database key is the index itself (parameter, field or getter used verbatim), except the two range scans")
+	hgPkg := p.Pkg(HG)
+	if hgPkg == nil {
+		r.Anchor(rule, "package hashgraph")
+		return
+	}
+	isKeyFn := func(f *types.Func) bool {
+		if f == nil || f.Pkg() == nil || !strings.HasSuffix(f.Pkg().Path(), "/"+HG) || !strings.HasSuffix(f.Name(), "Key") {
+			return false
+		}
+		sig := f.Type().(*types.Signature)
+		if sig.Recv() != nil || sig.Results().Len() != 1 {
+			return false
+		}
+		s, ok := sig.Results().At(0).Type().(*types.Slice)
+		if !ok {
+			return false
+		}
+		b, ok := s.Elem().(*types.Basic)
+		return ok && b.Kind() == types.Byte
+	}
+	n := 0
+	for _, fn := range p.Mod {
+		if !strings.HasSuffix(fnPkgPath(fn), "/"+HG) {
+			continue
+		}
+		top := fn
+		for top.Parent() != nil {
+			top = top.Parent()
+		}
+		for _, b := range fn.Blocks {
+			for _, in := range b.Instrs {
+				ci, ok := in.(ssa.CallInstruction)
+				if !ok || !isKeyFn(calleeFunc(ci.Common())) {
+					continue
+				}
+				for ai, a := range ci.Common().Args {
+					bt, isB := a.Type().Underlying().(*types.Basic)
+					if !isB || bt.Info()&types.IsInteger == 0 {
+						continue
+					}
+					n++
+					construct := fmt.Sprintf("%s:%s#arg%d", top.Name(), calleeFunc(ci.Common()).Name(), ai)
+					if why, ex := keyArgExempt[top.Name()]; ex {
+						r.Ok(rule, construct, p.ipos(in), fnName(fn), "range scan ("+why+")")
+						continue
+					}
+					// verbatim: no arithmetic anywhere on the value-preserving chain
+					arith := flowsFromLocal(a, func(x ssa.Value) bool {
+						bo, isBin := x.(*ssa.BinOp)
+						return isBin && bo.Op != token.EQL
+					})
+					r.Check(!arith, rule, construct, p.ipos(in), fnName(fn), "key built from the index itself",
+						"the integer component of the database key is computed (arithmetic on the index) in a point lookup / write: the record of a neighbouring index is read or overwritten — e.g. ReadWireInfo resolving a parent through the database after it left the in-memory window gets the creator's NEXT event, a different hash and an invalid signature")
+				}
+			}
+		}
+	}
+	if n == 0 {
+		r.Fail(rule, "key-sites", "-", "", "no database key with an integer component found")
 	}
 }
